@@ -114,7 +114,13 @@ class Context:
                 rr.violations = [Violation(v["rule"], v["key"], v["where"], v["msg"], v["detail"]) for v in d["violations"]]
                 out.append(rr)
         else:
-            out = fn()
+            try:
+                out = fn()
+            except AnchorError as e:
+                # a whole-crate rule group lost one of its anchors: fail closed, decide nothing silently
+                rr = RuleResult("ANCHOR")
+                rr.bad("ANCHOR:group:%s" % name, "rule group %s" % name, "rule group %s: %s" % (name, e))
+                out = [rr]
             write_json(path, [{"rule": r.rule, "instances": r.instances, "samples": r.samples, "counts": r.counts, "notes": r.notes,
                                "violations": [v.to_json() for v in r.violations]} for r in out])
         self._results[key] = out
